@@ -455,6 +455,8 @@ IGNORE_SHAPES = {
     'named,class-start': 'ignore Space = " "\nclass Start {\n a: "a"\n b: Word\n}\nWord = /[a-z]+/',
     'named,header': 'grammar ignwiring\nignore Space = /[ ]+/\nstart = [Word, Opt("!")]\nWord = /[a-z]+/\nT(x) = x << "."\nU = T("u") | T(k="v")',
     'named,no-start': 'ignore Space = /[ ]+/\nFirst = [Word, "!"]\nWord = /[a-z]+/',
+    'named,after,no-start': 'First = [Word, "!"]\nWord = /[a-z]+/\nignore Space = /[ ]+/',
+    'anonymous,before,no-start': 'ignore /[ ]+/\nFirst = Word+\nWord = /[a-z]+/',
     'bytes': 'ignore Pad = 0x00\nstart = [0x41, b"BC", b/[D-F]+/]',
 }
 
